@@ -318,6 +318,52 @@ pub fn run(prop: &str, tier: &str, replay: Option<&str>) -> i32 {
         }
         rep.add(sec);
     }
+    // (a2) long runs: one operation repeated far beyond any counter an implementation might keep (256, 65536 in the
+    // thorough tier), and every ordered pair of operations alternating; the output of EVERY step equals the reference
+    if run::replay().is_none() {
+        let n_single: usize = if thorough { 66_000 } else { 1000 };
+        let n_pair: usize = if thorough { 600 } else { 300 };
+        let sec = Section::new("histories/long-runs", &format!("each of the {} operations repeated {} times in a row (operations that sign with RSA: {} times), and each of the {} ordered pairs of operations alternating for {} steps: every single output equals the output of that operation executed first in a fresh process", N_OPS, n_single, n_single.min(if thorough { 3000 } else { 300 }), N_OPS * N_OPS, n_pair)).with_deadline(if thorough { 1500 } else { 40 });
+        let mut plans: Vec<(usize, usize, usize)> = (0..N_OPS).map(|a| (a, a, 0)).collect();
+        for a in 0..N_OPS {
+            for b in 0..N_OPS {
+                if a != b {
+                    plans.push((a, b, 1));
+                }
+            }
+        }
+        run::sweep_cases(&sec, &plans, &|p| if p.2 == 0 { format!("{} repeated", op_name(p.0)) } else { format!("{} and {} alternating", op_name(p.0), op_name(p.1)) }, &|p| {
+            let mut out = Outcome::default();
+            let t0 = std::time::Instant::now();
+            let first = exec(&w, p.0);
+            let cost = t0.elapsed().as_micros().max(1) as usize;
+            // operations above 400 microseconds sign with RSA
+            let n = if p.2 == 1 { n_pair } else if cost > 400 { n_single.min(if thorough { 3000 } else { 300 }) } else { n_single };
+            let want = |op: usize| ref_digests.get(op).cloned().unwrap_or_default();
+            let dig = |op: usize, r: &Result<Vec<u8>, String>| match r {
+                Ok(b) => format!("REF {} {:016x}", op, fnv(b)),
+                Err(e) => format!("REF {} ERR {}", op, e),
+            };
+            let mut bad: Option<(usize, String)> = None;
+            if dig(p.0, &first) != want(p.0) {
+                bad = Some((0, dig(p.0, &first)));
+            }
+            for step in 1..n {
+                let op = if step % 2 == 1 && p.2 == 1 { p.1 } else { p.0 };
+                let r = exec(&w, op);
+                if bad.is_none() && dig(op, &r) != want(op) {
+                    bad = Some((step, dig(op, &r)));
+                }
+            }
+            out.transitions = n as u64;
+            out.digest = fnv(format!("{:?}", p).as_bytes());
+            if let Some((step, got)) = bad {
+                out.findings.push(Finding::new("HISTORY-DEPENDENT-OUTPUT", op_name(p.0), format!("step {} of {} gives {} (reference: executed first in a fresh process)", step + 1, if p.2 == 0 { "the repetition".to_string() } else { format!("the alternation with {}", op_name(p.1)) }, got)));
+            }
+            out
+        });
+        rep.add(sec);
+    }
     // the in-process references for the schedule harness
     for op in 0..N_OPS {
         reference.push(exec(&w, op));
